@@ -96,7 +96,12 @@ def task_identify(pr, repo):
                 return {'coupling_factor': f}
             ex.contracts[N + '.is_coupled_protonation_state_probability'] = analysis
             nccg = record('nccg', NC, do_prot_stat=prot, parameters=None)
+            shown = []
+            # the alternative-state print-out applies swaps and never undoes them: it may run only when display mode is asked for
+            ex.contracts[N + '.print_out_swaps'] = lambda ex, ctx_, fi_, a, k, so: shown.append(a)
             ex.call_function(fi, [conf], {'verbose': False}, self_obj=nccg)
+            ctx.oblige('ID: without the display option the alternative-state print-out (which re-orders interactions for good) is '
+                       'never run, whatever the logging configuration', not shown)
             if not prot:
                 ctx.oblige('ID: with do_prot_stat False the analysis is never called and nothing is coupled',
                            not calls and all(not g.attrs['non_covalently_coupled_groups'] for g in gs))
